@@ -16,7 +16,7 @@ LEVEL_TEXT = (
     "split, complex data writing both parts; the transformation dispatch covers exactly the documented modes."
 )
 LEVEL_NOTE = "Out of reach statically: the round trip itself, which goes through meshio's writers/readers and the file system."
-EXPLANATION = "rules TAG-PROVENANCE, MESH-ARRAYS, DATA-PLUMBING, TRANSFORM-MODES, TRANSFORM-FORMULAS, CAST-LOSSLESS, IMPORT-FALLBACK"
+EXPLANATION = "rules TAG-PROVENANCE, MESH-ARRAYS, TRANSFORM-FORMULAS, CAST-LOSSLESS, IMPORT-FALLBACK, EXPORT-DISPATCH"
 ASSUMPTIONS = ["meshio stores and returns cell_data / point_data arrays unchanged under the keys used"]
 
 IO = "bempp_cl/api/grid/io.py"
@@ -101,47 +101,9 @@ def run(ctx):
     okw = passed.get("filename") == "filename" and passed.get("binary") == "write_binary" and isinstance(wargs.get("file_format"), ast.Name) and set(wargs) == {
         "filename", "points", "cells", "point_data", "cell_data", "file_format", "binary"}
     r2.check(okw, "write call", IO, "export", wcall.lineno, "meshio write call", "write_points_cells receives %s" % {k: v[:40] for k, v in passed.items()})
-    # data plumbing
-    r3 = ctx.rule("DATA-PLUMBING", "node data: evaluate_on_vertices -> point_data; element data: evaluate_on_element_centers -> cell_data; transformation before the real/imag split; complex data write both parts", 2)
-    branches = {}
-    for st in ast.walk(exp):
-        if isinstance(st, ast.If) and isinstance(st.test, ast.Compare) and unparse(st.test.left) == "data_type" and isinstance(st.test.comparators[0], ast.Constant):
-            branches[st.test.comparators[0].value] = st
-    for kind, src_fn, sink in (("node", "evaluate_on_vertices", point_sink), ("element", "evaluate_on_element_centers", cell_sink)):
-        b = branches.get(kind)
-        ok = False
-        msg = "no `data_type == %r` branch" % kind
-        if b is not None:
-            D = "_transform_array(grid_function.%s(),transformation).T" % src_fn
-            # one array per cell block for cell data (meshio's cell_data layout), the bare array for point data
-            wrap = (lambda x: "[%s]" % x) if sink == cell_sink else (lambda x: x)
-            want = {True: {"real": wrap("_np.real(%s)" % D), "imag": wrap("_np.imag(%s)" % D)}, False: {"data": wrap(D)}}
-            got = {True: {}, False: {}}
-            other = []
-            for guard, st in _stores(b.body, sink, None):
-                gtxt = None if guard is None else (roles.canon(guard[0], defs).replace(" ", ""), guard[1])
-                if gtxt is None or gtxt[0] != "_np.iscomplexobj(%s)" % D:
-                    other.append(st.lineno)
-                    continue
-                for k, v in _entries(st, sink):
-                    got[gtxt[1]][k] = roles.canon(v, defs).replace(" ", "")
-            ok = got == want and not other
-            msg = "data_type %r writes %s into %s (complex branch) / %s (real branch); expected %s / %s%s" % (
-                kind, got[True], sink, got[False], want[True], want[False], "; unguarded stores at lines %s" % other if other else "")
-        r3.check(ok, "data_type %s" % kind, IO, "export", b.lineno if b is not None else exp.lineno, "export data_type %s plumbing" % kind, msg)
-    # transformation modes
-    r4 = ctx.rule("TRANSFORM-MODES", "_transform_array dispatches exactly the documented modes (None, real, imag, abs, abs_squared, log_abs, callable)", 1)
-    tf = m.fn("_transform_array")
-    lits = set()
-    has_else_call = False
-    for st in ast.walk(tf):
-        if isinstance(st, ast.If) and isinstance(st.test, ast.Compare) and unparse(st.test.left) == "mode" and isinstance(st.test.comparators[0], ast.Constant) and isinstance(st.test.comparators[0].value, str):
-            lits.add(st.test.comparators[0].value)
-            if st.orelse and not isinstance(st.orelse[0], ast.If):
-                has_else_call = any(isinstance(c, ast.Call) and unparse(c.func) == "mode" for x in st.orelse for c in ast.walk(x))
-    none_first = isinstance(tf.body[1] if isinstance(tf.body[0], ast.Expr) else tf.body[0], ast.If) and "modeisNone" in unparse(tf.body[1] if isinstance(tf.body[0], ast.Expr) else tf.body[0]).replace(" ", "")
-    r4.check(lits == {"real", "imag", "abs", "abs_squared", "log_abs"} and has_else_call and none_first, "_transform_array", IO, "_transform_array", tf.lineno,
-             "transformation modes %s" % sorted(lits), "dispatch covers %s (callable fallback: %s, None passthrough: %s)" % (sorted(lits), has_else_call, none_first))
+    # node / element data plumbing and the transformation dispatch: rules EXPORT-DISPATCH and TRANSFORM-FORMULAS (abstract
+    # execution; the earlier DATA-PLUMBING / TRANSFORM-MODES matched `name == literal` tests textually and raised a false
+    # alarm on `literal == name` and missed `!=`)
     transform_formulas(ctx)
     iorules.cast_widths(ctx)
     iorules.import_fallback(ctx, keys)
